@@ -86,6 +86,16 @@ type (
 
 // Validate implements custom validation for Spec
 func (spec Spec) Validate() error {
+	for _, p := range spec.Policies {
+		if p == nil || p.LimitRefreshPeriod == "" {
+			continue
+		}
+		// the limiter divides by the refresh period
+		if d, err := time.ParseDuration(p.LimitRefreshPeriod); err == nil && d <= 0 {
+			return fmt.Errorf("policy '%s': limitRefreshPeriod must be positive", p.Name)
+		}
+	}
+
 URLLoop:
 	for _, u := range spec.URLs {
 		name := u.PolicyRef
